@@ -12,6 +12,12 @@ def pytest_configure(config):
     if not shim.enabled():
         return
     import yatiml
+    if os.environ.get('VERIF_DUMP_TRACE_OUT'):
+        import trace_dump
+        r = trace_dump.DumpRecorder()
+        r.install()
+        _tr['dump'] = r
+        return
     import check_c07
     t = shim.JsonTracer(yatiml, check_c07.lex)
     t.install()
@@ -24,6 +30,13 @@ def pytest_configure(config):
 
 
 def pytest_unconfigure(config):
+    r = _tr.get('dump')
+    if r is not None:
+        r.uninstall()
+        with open(os.environ['VERIF_DUMP_TRACE_OUT'], 'w') as f:
+            json.dump({'records': r.records, 'skipped': dict(r.skipped)}, f,
+                      default=repr)
+        return
     r = _tr.get('load')
     if r is not None:
         r.uninstall()
